@@ -185,7 +185,9 @@ def run_tlc(module, cfg, env=None, workers=1, timeout=600, xmx="3g", deque=False
     e = dict(os.environ)
     e.update({k: str(v) for k, v in (env or {}).items()})
     e["JAVA_TOOL_OPTIONS"] = jopts
-    cmd = ["timeout", str(int(timeout)), "java", "-XX:+UseParallelGC", "-cp", TLC_JAR_CP, "tlc2.TLC",
+    # (-Xss on the command line as well: the launcher sizes the MAIN thread from its own arguments, not from JAVA_TOOL_OPTIONS, and TLC
+    #  evaluates ASSUMEs and constants there - with the default stack a deep recursion overflows or not depending on what the JIT has compiled)
+    cmd = ["timeout", str(int(timeout)), "java", "-Xss1g", "-XX:+UseParallelGC", "-cp", TLC_JAR_CP, "tlc2.TLC",
            "-workers", str(workers), "-metadir", md, "-cleanup", "-noGenerateSpecTE",
            "-config", cfg, *extra, module + ".tla"]
     t0 = time.time()
